@@ -1,4 +1,5 @@
 import Lemmas.Rev.PlanFacts
+import Lemmas.Rev.Bridge
 /-!
 # C01 — the upgrade plan is exactly the missing ancestors, in dependency order
 
@@ -129,6 +130,53 @@ theorem norm_closure {h : Hist} {o : LoadOpts} {m : LMap} (hl : load h o = .ok m
     (hu : (h.map (·.id)).Nodup) (hd : ∀ r ∈ h, ∀ d ∈ r.down, d ∈ h.map (·.id)) (x y : Id) :
     Reach m.normDownOf x y ↔ Reach m.allDownOf x y :=
   reach_norm_iff_all (loaded_of_load hl hu hd) x y
+
+/-! ### the same, in terms of the history as written and of the oracle -/
+
+/-- "required by" in the loaded map = ancestor-or-self in the files (`Spec.Rev.IsAnc`: down
+revisions and dependencies, a dependency naming a revision id or the branch label it carries) -/
+theorem requires_iff_isAnc {h : Hist} {o : LoadOpts} {m : LMap} (hl : load h o = .ok m)
+    (hu : (h.map (·.id)).Nodup) (roots : List Id) (x : Id) : Requires m roots x ↔ IsAnc h roots x := by
+  unfold Requires IsAnc
+  constructor
+  · rintro ⟨r, hr, hreach⟩; exact ⟨r, hr, (reach_allDown_iff_parents hl hu r x).mp hreach⟩
+  · rintro ⟨r, hr, hreach⟩; exact ⟨r, hr, (reach_allDown_iff_parents hl hu r x).mpr hreach⟩
+
+/-- **C01 in the words of the property**: the plan is exactly `(ancestors*(T) ∪ T) \ applied(S)`
+over the down-revision and depends-on links of the files, without repetition, a linear extension. -/
+theorem plan_history {h : Hist} {o : LoadOpts} {m : LMap} (hl : load h o = .ok m)
+    (hu : (h.map (·.id)).Nodup) (hd : ∀ r ∈ h, ∀ d ∈ r.down, d ∈ h.map (·.id))
+    (rows : List Id) (target : String) (plan : List Id)
+    (hp : upgradeRevs m rows target = .ok plan) :
+    ∃ targets cur, parseUpgradeTarget m rows target = .ok targets ∧ resolveRows m rows = .ok cur ∧
+      plan.Nodup ∧ (∀ x, x ∈ plan ↔ IsAnc h targets x ∧ ¬ IsAnc h cur x) ∧
+      (∀ pre x post, plan = pre ++ x :: post → ∀ p ∈ parents h x, IsAnc h cur p ∨ p ∈ pre) := by
+  obtain ⟨targets, cur, h1, h2, hplan⟩ := C01.plan hl hu hd rows target plan hp
+  refine ⟨targets, cur, h1, h2, hplan.nodup, ?_, ?_⟩
+  · intro x
+    rw [hplan.exact x, requires_iff_isAnc hl hu, requires_iff_isAnc hl hu]
+  · intro pre x post hsplit p hp'
+    have := hplan.order pre x post hsplit p ((allDownOf_mem_iff_parents hl hu x p).mpr hp')
+    rcases this with h' | h'
+    · exact Or.inl ((requires_iff_isAnc hl hu cur p).mp h')
+    · exact Or.inr h'
+
+/-- the oracle evaluated on the implementation's plans decides that statement -/
+theorem upgradeOk_sound (h : Hist) (rows targets plan : List Id) (hok : upgradeOk h rows targets plan = true) :
+    (∀ x, x ∈ plan → IsAnc h targets x ∧ ¬ IsAnc h rows x) ∧
+    (∀ x, IsAnc h targets x → IsAnc h rows x ∨ x ∈ plan) := by
+  unfold upgradeOk at hok
+  simp only [Bool.and_eq_true, List.all_eq_true, decide_eq_true_eq, Bool.not_eq_true', decide_eq_false_iff_not,
+    Bool.or_eq_true] at hok
+  obtain ⟨⟨⟨_, h2⟩, h3⟩, _⟩ := hok
+  constructor
+  · intro x hx
+    have := h2 x hx
+    exact ⟨(mem_ancSet_iff h targets x).mp this.1, fun hc => this.2 ((mem_ancSet_iff h rows x).mpr hc)⟩
+  · intro x hx
+    rcases h3 x ((mem_ancSet_iff h targets x).mpr hx) with h' | h'
+    · exact Or.inl ((mem_ancSet_iff h rows x).mp h')
+    · exact Or.inr h'
 
 /-! ### non-vacuity (kernel-evaluated on a concrete branched history with a merge and a dependency) -/
 
